@@ -12,13 +12,11 @@ Inductive item :=
 | IOps (ops : list op)               (* a batch of rodbus_database_* calls on unit 1's database *)
 | IFrame (u : N) (pdu : list N).     (* one MBAP request addressed to unit u *)
 
-Definition wire_units := list (N * unit_state N).
+Definition wire_units := ucfg (unit_state N).
 
 Definition apply_ops (units : wire_units) (ops : list op) : wire_units * list result :=
-  match lookup 1 units with
-  | Some (d, n) => let '(d', rs) := Database.run d ops in (update 1 (d', n) units, rs)
-  | None => (units, [])
-  end.
+  let '(d, n) := u_store units 1 in
+  let '(d', rs) := Database.run d ops in (with_store units (sset (u_store units) 1 (d', n)), rs).
 
 Local Open Scope string_scope.
 Definition show_reply (o : outcome serr (list N)) : string :=
@@ -41,8 +39,8 @@ Fixpoint run_items (model : bool) (units : wire_units) (tx : N) (items : list it
       (reply :: out, u')
   end.
 
-Definition callbacks_of (units : wire_units) : N := match lookup 1 units with Some (_, n) => n | None => 0 end.
+Definition callbacks_of (units : wire_units) : N := snd (u_store units 1).
 
 Definition run_wire (model : bool) (items : list item) : string :=
-  let '(out, units) := run_items model [(1, (db_empty, 0))] 1 items in
+  let '(out, units) := run_items model {| u_map := [(1, 1)]; u_store := fun _ => (db_empty, 0) |} 1 items in
   show_list (fun s => s) ";" out ++ ";cb=" ++ show_N (callbacks_of units).
